@@ -18,6 +18,12 @@ macro_rules! props {
                 $($id => $m::describe(tier, r),)*
                 _ => {}
             }
+            if ["C01", "C04", "C08", "C09", "C10", "C11", "C12", "C13", "C15"].contains(&id) {
+                r.rule.push_str("; trait surface model: root -> one state per (family of provided trait functions, 4 keys, 5 messages (thorough 8), 3 schemes, variant), each calling the trait functions directly (not through the structs) and comparing values and verdicts with the reference model under the entropy and clock seams");
+            }
+            if ["C03", "C05", "C06"].contains(&id) {
+                r.rule.push_str("; collision-list model: every list of length 2..3 (thorough 4) over the pair alphabet {sk=1, sk=r-1, derived key} x {01ff, 01fe, empty}: aggregate bytes and decision against the reference (C03, C06), the same point under every other label (C05)");
+            }
         }
     };
 }
